@@ -162,7 +162,8 @@ def validateEntryG (B : Nat) (keys : List KeyInfo) (data : Bytes) : GoM Verdict 
 theorem readSizedG_spec (site : String) (B bits : Nat) (r : Bytes) (m : Meter)
     (hB : m.alloc + 2 * r.length ≤ B) :
     SafeP (readSizedG site B bits r) m
-      (fun p m' => p.2.length ≤ r.length ∧ m'.alloc + 2 * p.2.length ≤ m.alloc + 2 * r.length) := by
+      (fun p m' => p.2.length ≤ r.length ∧ m'.alloc + 2 * p.2.length ≤ m.alloc + 2 * r.length ∧
+        p.1.length ≤ r.length) := by
   unfold readSizedG
   apply SafeP.ite; · intro _; exact SafeP.err
   intro _
@@ -172,12 +173,13 @@ theorem readSizedG_spec (site : String) (B bits : Nat) (r : Bytes) (m : Meter)
   apply SafeP.bind; apply SafeP.alloc (by simp only []; omega)
   apply SafeP.binaryRead
   intro _
-  simp only [List.length_drop]
+  simp only [List.length_drop, List.length_take]
   omega
 
 theorem tokenOrRootKeyG_spec (B : Nat) (bs : Bytes) (m : Meter) (hB : m.alloc + 2 * bs.length ≤ B) :
     SafeP (tokenOrRootKeyG B bs) m
-      (fun p m' => p.2.length ≤ bs.length ∧ m'.alloc + 2 * p.2.length ≤ m.alloc + 2 * bs.length) := by
+      (fun p m' => p.2.length ≤ bs.length ∧ m'.alloc + 2 * p.2.length ≤ m.alloc + 2 * bs.length ∧
+        p.1.modulus.length ≤ bs.length ∧ p.1.exponent.length ≤ bs.length) := by
   unfold tokenOrRootKeyG
   apply SafeP.bind
   apply SafeP.mono (readFieldsG_spec _ _ _ m)
@@ -185,10 +187,10 @@ theorem tokenOrRootKeyG_spec (B : Nat) (bs : Bytes) (m : Meter) (hB : m.alloc + 
   rw [hm]
   apply SafeP.bind
   apply SafeP.mono (readSizedG_spec _ B _ p.2 m (by omega))
-  intro p1 m2 ⟨hl1, ha1⟩
+  intro p1 m2 ⟨hl1, ha1, hx1⟩
   apply SafeP.bind
   apply SafeP.mono (readSizedG_spec _ B _ p1.2 m2 (by omega))
-  intro p2 m3 ⟨hl2, ha2⟩
+  intro p2 m3 ⟨hl2, ha2, hx2⟩
   apply SafeP.pure
   simp only
   omega
@@ -213,7 +215,7 @@ theorem tokenKeyG_spec (B : Nat) (sigLen : Option Nat) (bs : Bytes) (m : Meter)
   unfold tokenKeyG
   apply SafeP.bind
   apply SafeP.mono (tokenOrRootKeyG_spec B bs m (by omega))
-  intro p m' ⟨_, ha⟩
+  intro p m' ⟨_, ha, _, _⟩
   simp only
   cases sigLen with
   | none => exact SafeP.err
@@ -232,7 +234,8 @@ theorem tokenKeyG_spec (B : Nat) (sigLen : Option Nat) (bs : Bytes) (m : Meter)
 
 theorem dbKeyG_spec (B : Nat) (r : Bytes) (m : Meter) (hB : m.alloc + 2 * r.length ≤ B) :
     SafeP (dbKeyG B r) m
-      (fun p m' => p.2.length + 4 ≤ r.length ∧ m'.alloc + 2 * p.2.length ≤ m.alloc + 2 * r.length) := by
+      (fun p m' => p.2.length + 4 ≤ r.length ∧ m'.alloc + 2 * p.2.length ≤ m.alloc + 2 * r.length ∧
+        p.1.2.length ≤ r.length) := by
   unfold dbKeyG
   apply SafeP.bind; apply SafeP.binaryRead; intro h4
   simp only
@@ -254,7 +257,7 @@ theorem dbKeyG_spec (B : Nat) (r : Bytes) (m : Meter) (hB : m.alloc + 2 * r.leng
   have hd44 : (List.drop 44 p.2).length = p.2.length - 44 := by simp
   apply SafeP.bind
   apply SafeP.mono (readSizedG_spec _ B _ (List.drop 44 p.2) m (by omega))
-  intro q m2 ⟨hl2, ha2⟩
+  intro q m2 ⟨hl2, ha2, hx2⟩
   apply SafeP.pure
   simp only
   omega
@@ -272,7 +275,7 @@ theorem dbLoopG_spec (B fuel : Nat) (r : Bytes) (ids : List Bytes) (m : Meter)
     · intro _
       apply SafeP.bind
       apply SafeP.mono (dbKeyG_spec B r m hB)
-      intro p m' ⟨hl, ha⟩
+      intro p m' ⟨hl, ha, _⟩
       simp only
       apply SafeP.cond
       · intro _; exact SafeP.err
@@ -310,34 +313,35 @@ theorem align16_le (x : Nat) : align16 x < two32 := by
     header says; metered allocation = |entry| (the defensive copy of `newPSPBinary`) -/
 theorem validateEntryG_spec (B : Nat) (keys : List KeyInfo) (data : Bytes) (m : Meter)
     (hB : m.alloc + data.length ≤ B) :
-    SafeP (validateEntryG B keys data) m (fun v _ => ∀ sg sd, v = .reach sg sd →
+    SafeP (validateEntryG B keys data) m (fun v m' => m'.alloc ≤ m.alloc + data.length ∧ ∀ sg sd, v = .reach sg sd →
       sd.length ≤ data.length ∧ sg.length ≤ data.length ∧ pspHeaderSize < sd.length) := by
   unfold validateEntryG
   apply SafeP.bind; apply SafeP.alloc (by omega)
   apply SafeP.bind; apply SafeP.binaryRead; intro _
   simp only
-  apply SafeP.ite; · intro _; exact SafeP.pure (by intro _ _ h; cases h)
+  apply SafeP.ite; · intro _; exact SafeP.pure ⟨by simp only; omega, by intro _ _ h; cases h⟩
   intro _
-  apply SafeP.ite; · intro _; exact SafeP.pure (by intro _ _ h; cases h)
+  apply SafeP.ite; · intro _; exact SafeP.pure ⟨by simp only; omega, by intro _ _ h; cases h⟩
   intro _
   split
-  · exact SafeP.pure (by intro _ _ h; cases h)
+  · exact SafeP.pure ⟨by simp only; omega, by intro _ _ h; cases h⟩
   · rename_i k _
-    apply SafeP.ite; · intro _; exact SafeP.pure (by intro _ _ h; cases h)
+    apply SafeP.ite; · intro _; exact SafeP.pure ⟨by simp only; omega, by intro _ _ h; cases h⟩
     intro _
-    apply SafeP.ite; · intro _; exact SafeP.pure (by intro _ _ h; cases h)
+    apply SafeP.ite; · intro _; exact SafeP.pure ⟨by simp only; omega, by intro _ _ h; cases h⟩
     intro _
-    apply SafeP.ite; · intro _; exact SafeP.pure (by intro _ _ h; cases h)
+    apply SafeP.ite; · intro _; exact SafeP.pure ⟨by simp only; omega, by intro _ _ h; cases h⟩
     intro hgt
-    apply SafeP.ite; · intro _; exact SafeP.pure (by intro _ _ h; cases h)
+    apply SafeP.ite; · intro _; exact SafeP.pure ⟨by simp only; omega, by intro _ _ h; cases h⟩
     intro hb1
-    apply SafeP.ite; · intro _; exact SafeP.pure (by intro _ _ h; cases h)
+    apply SafeP.ite; · intro _; exact SafeP.pure ⟨by simp only; omega, by intro _ _ h; cases h⟩
     intro hb2
     apply SafeP.bind; apply SafeP.slice (by omega)
     apply SafeP.bind; apply SafeP.slice (by omega)
-    apply SafeP.ite; · intro _; exact SafeP.pure (by intro _ _ h; cases h)
+    apply SafeP.ite; · intro _; exact SafeP.pure ⟨by simp only; omega, by intro _ _ h; cases h⟩
     intro hlen
     apply SafeP.pure
+    refine ⟨by simp only; omega, ?_⟩
     intro sg sd h
     injection h with h1 h2
     subst h1 h2
